@@ -3,39 +3,47 @@
    as long as every split happens in a covered state.
 
    [splits_cov s toks toks']: toks' is toks with some character tokens cut in two or more pieces ([TreeSplit.splits])
-   and every token that is cut is processed - in the run of toks' from s - in a state satisfying [covered_at]:
-       foster parenting off, the current node is not a template element, the shape assumption of
-       TreeModelRules.shape_check holds (it only says something in "in head", "in head noscript", "text", "in cell"
-       and "in table body"), and either
+   and every token that is cut is processed - in the run of toks' from s - in a state satisfying [covered_at] for the
+   text x of the whole token: the shape assumption of TreeModelRules.shape_check holds (it only says something in
+   "in head", "in head noscript", "text", "in cell" and "in table body"), and
+     EITHER foster parenting is off, the current node is not a template element, and
          - the insertion mode is "text", or
          - the insertion mode is "in body", "in caption", "in template" or "in cell" (the last three delegate
            character tokens to "in body") and the adjusted current node is an HTML element, or
+         - the insertion mode is "after body", "after after body" or "after after frameset", x is white space only
+           (these modes hand white space to "in body") and the adjusted current node is an HTML element, or
          - the token is handled by the foreign-content rules (any insertion mode; [TreeSplitForeign.foreignb] of
-           the adjusted current node).
-   [covered_atb] is the boolean version.
+           the adjusted current node),
+     OR x is white space only, the token is not handled by the foreign rules and the insertion mode is one of
+         "initial", "before html", "before head" (white space ignored), "in head", "in head noscript", "after head",
+         "in column group", "in frameset", "after frameset" (white space appended: then also foster parenting off and
+         a current node that is not a template element).
+   [covered_atb] is the boolean version, [splits_covb] a checker for the whole side condition.
 
    [tree_split_run_partial]: under that side condition (and the tokenizer protocol for toks') the two runs end in
    states with the same core and the same DOM, or stop at the same Panic site / both out of fuel.
    Ingredients: TreeSplit.log_irrelevant_holds (the event log is write-only, TreeFrame.v), the line number of a
    token is irrelevant ([process_token_line]), TreeSplit.text_mode_split_gen, TreeSplitBody.body_mode_split,
-   TreeSplitForeign.foreign_mode_split.
+   TreeSplitForeign.foreign_mode_split, TreeSplitEarly.early_mode_split.
 
    NOT covered (a split in such a state is not allowed by [splits_cov]):
-     - "in table" and the table-text modes: the characters are queued in pending_table_text and flushed by the next
-       token (only the white-space test over the queue is proved, TreeSplit.pending_nonspace_split);
-     - the modes whose character arm answers SplitWhitespace (initial, before html, before head, in head,
-       in head noscript, after head, in column group, after body, after after body, in frameset, after frameset,
-       after after frameset): the white-space runs of a ++ b are not those of a followed by those of b;
-     - "in table" with foster parenting, a template element as the current node (template contents are fetched once
-       per piece: the second fetch is a no-op in DomSpec) and foster parenting (the two OpAppendBasedOnParent of text
-       would have to be merged in DomSpec): same argument as "in body", not carried out.
+     - "in table" and the table-text modes (also reached from "in table body", "in row" and, for other characters, "in
+       column group"): the characters are queued in pending_table_text and flushed by the next token (proved: the
+       white-space test over the queue and the flush of a white-space-only queue, TreeSplitTable.v);
+     - tokens with a non-white-space character in the modes whose character arm answers SplitWhitespace (initial,
+       before html, before head, in head, in head noscript, after head, in column group, after body, after after body,
+       in frameset, after frameset, after after frameset): the runs of a ++ b are not those of a followed by those
+       of b; plan in the header of TreeSplitEarly.v;
+     - foster parenting on (the two OpAppendBasedOnParent of text would have to be merged in DomSpec) and a template
+       element as the current node (template contents are fetched once per piece: the second fetch is a no-op in
+       DomSpec): same argument as "in body", not carried out.
    ======================================================================== *)
 From Coq Require Import List NArith Bool Arith Lia String.
 From HV Require Import Dom.DomSpec Dom.DomLemmas SinkSpec.Contract SinkSpec.ContractProofs.
 From HV Require Import Tree.TreeTypes Tree.TreeTables Tree.TreeModelHelpers Tree.TreeModelRules Tree.TreeModel
   Tree.TreeHoare Tree.TreeInvBasic Tree.TreeInvDefs Tree.TreeInvSetters Tree.TreeInvPrims Tree.TreeInvHelpers Tree.TreeInvDispatch
   Tree.TreeInvRules Tree.TreeInvModes Tree.TreeInvMain Tree.TreeContract Tree.TreeSkeleton Tree.TreeContractRun
-  Tree.TreeFrame Tree.TreeSplit Tree.TreeSplitBody Tree.TreeSplitForeign.
+  Tree.TreeFrame Tree.TreeSplit Tree.TreeSplitBody Tree.TreeSplitForeign Tree.TreeSplitEarly.
 Import ListNotations.
 Open Scope string_scope.
 Open Scope list_scope.
@@ -72,63 +80,112 @@ Proof.
   - congruence.
 Qed.
 
-(* ---------- the covered states ---------- *)
-Definition mode_cov (s : st) : Prop :=
+(* ---------- the covered states (for a character token with text x) ---------- *)
+Definition curnt (s : st) : Prop := exists h, vlast (open_elems s) = Some h /\ named s h "template" = false.
+
+Definition late_cov (s : st) (x : str) : Prop :=
   mode s = Text \/
-  (dmode (mode s) /\ adjusted_ns s = ns_html) \/
+  (dmode (mode s) /\ xok (mode s) x /\ adjusted_ns s = ns_html) \/
   (exists h, adjusted_node s = Some h /\ foreignb s h = true).
 
-Definition covered_at (s : st) : Prop :=
-  foster_parenting s = false /\
-  (exists h, vlast (open_elems s) = Some h /\ named s h "template" = false) /\
-  hshape_b s = true /\ mode_cov s.
+Definition early_cov (s : st) (x : str) : Prop :=
+  nfchars s /\ any_not_whitespace x = false /\
+  exists evs app, ws_info (mode s) = Some (evs, app) /\ (app = true -> foster_parenting s = false /\ curnt s).
 
-Definition mode_covb (s : st) : bool :=
+Definition covered_at (s : st) (x : str) : Prop :=
+  hshape_b s = true /\
+  ((foster_parenting s = false /\ curnt s /\ late_cov s x) \/ early_cov s x).
+
+Definition curntb (s : st) : bool :=
+  match vlast (open_elems s) with Some h => negb (named s h "template") | None => false end.
+Definition xokb (m : imode) (x : str) : bool :=
+  match m with
+  | AfterBody | AfterAfterBody | AfterAfterFrameset => negb (is_nil x) && negb (any_not_whitespace x)
+  | _ => true
+  end.
+Definition dmodeb (m : imode) : bool :=
+  match m with
+  | InBody | InCaption | InTemplate | InCell | AfterBody | AfterAfterBody | AfterAfterFrameset => true
+  | _ => false
+  end.
+Definition late_covb (s : st) (x : str) : bool :=
   mode_eqb (mode s) Text ||
-  ((mode_eqb (mode s) InBody || mode_eqb (mode s) InCaption || mode_eqb (mode s) InTemplate || mode_eqb (mode s) InCell) &&
-   str_eqb (adjusted_ns s) ns_html) ||
+  (dmodeb (mode s) && xokb (mode s) x && str_eqb (adjusted_ns s) ns_html) ||
   match adjusted_node s with Some h => foreignb s h | None => false end.
+Definition nfcharsb (s : st) : bool :=
+  match adjusted_node s with Some h => negb (foreignb s h) | None => is_nil (open_elems s) end.
+Definition early_covb (s : st) (x : str) : bool :=
+  nfcharsb s && negb (any_not_whitespace x) &&
+  match ws_info (mode s) with
+  | Some (_, app) => if app then negb (foster_parenting s) && curntb s else true
+  | None => false
+  end.
+Definition covered_atb (s : st) (x : str) : bool :=
+  hshape_b s && ((negb (foster_parenting s) && curntb s && late_covb s x) || early_covb s x).
 
-Definition covered_atb (s : st) : bool :=
-  negb (foster_parenting s) &&
-  match vlast (open_elems s) with Some h => negb (named s h "template") | None => false end &&
-  hshape_b s && mode_covb s.
+Lemma negb_true_false b : negb b = true -> b = false.
+Proof. destruct b; [discriminate | reflexivity]. Qed.
 
-Lemma mode_covb_sound s : mode_covb s = true -> mode_cov s.
+Lemma curntb_sound s : curntb s = true -> curnt s.
 Proof.
-  unfold mode_covb, mode_cov. intro H. apply orb_true_iff in H. destruct H as [H|H]; [apply orb_true_iff in H; destruct H as [H|H]|].
+  unfold curntb, curnt. destruct (vlast (open_elems s)) as [h|]; [|discriminate]. intro H. exists h.
+  split; [reflexivity | apply negb_true_false; exact H].
+Qed.
+
+Lemma dmodeb_sound m : dmodeb m = true -> dmode m.
+Proof. unfold dmode. destruct m; cbn [dmodeb]; intro H; try discriminate; tauto. Qed.
+
+Lemma xokb_sound m x : xokb m x = true -> xok m x.
+Proof.
+  destruct m; cbn [xokb xok]; intro H; try exact Logic.I; apply andb_true_iff in H; destruct H as [A B];
+    (split; [destruct x; [discriminate | discriminate] | apply negb_true_false; exact B]).
+Qed.
+
+Lemma late_covb_sound s x : late_covb s x = true -> late_cov s x.
+Proof.
+  unfold late_covb, late_cov. intro H. apply orb_true_iff in H. destruct H as [H|H]; [apply orb_true_iff in H; destruct H as [H|H]|].
   - left. apply mode_eqb_eq. exact H.
-  - right. left. apply andb_true_iff in H. destruct H as [A B]. split; [|apply TreeInvPrims.str_eqb_eq; exact B]. unfold dmode.
-    repeat (apply orb_true_iff in A; destruct A as [A|A]); apply mode_eqb_eq in A; tauto.
+  - right. left. apply andb_true_iff in H. destruct H as [H C]. apply andb_true_iff in H. destruct H as [A B].
+    split; [apply dmodeb_sound; exact A|]. split; [apply xokb_sound; exact B | apply TreeInvPrims.str_eqb_eq; exact C].
   - right. right. destruct (adjusted_node s) as [h|]; [|discriminate]. exists h. split; [reflexivity | exact H].
 Qed.
 
-Lemma covered_atb_sound s : covered_atb s = true -> covered_at s.
+Lemma early_covb_sound s x : early_covb s x = true -> early_cov s x.
 Proof.
-  unfold covered_atb, covered_at. intro H.
-  apply andb_true_iff in H. destruct H as [H H4]. apply andb_true_iff in H. destruct H as [H H3].
-  apply andb_true_iff in H. destruct H as [H1 H2].
-  split; [destruct (foster_parenting s); [discriminate | reflexivity]|].
+  unfold early_covb, early_cov. intro H. apply andb_true_iff in H. destruct H as [H C]. apply andb_true_iff in H. destruct H as [A B].
   split.
-  - destruct (vlast (open_elems s)) as [h|]; [|discriminate]. exists h. split; [reflexivity|].
-    destruct (named s h "template"); [discriminate | reflexivity].
-  - split; [exact H3 | apply mode_covb_sound; exact H4].
+  - unfold nfcharsb, nfchars in *. destruct (adjusted_node s); [apply negb_true_false; exact A|].
+    destruct (open_elems s); [reflexivity | discriminate].
+  - split; [apply negb_true_false; exact B|].
+    destruct (ws_info (mode s)) as [[evs app]|]; [|discriminate]. exists evs, app. split; [reflexivity|].
+    intro Ea. subst app. apply andb_true_iff in C. destruct C as [C1 C2].
+    split; [apply negb_true_false; exact C1 | apply curntb_sound; exact C2].
+Qed.
+
+Lemma covered_atb_sound s x : covered_atb s x = true -> covered_at s x.
+Proof.
+  unfold covered_atb, covered_at. intro H. apply andb_true_iff in H. destruct H as [Sh H]. split; [exact Sh|].
+  apply orb_true_iff in H. destruct H as [H|H]; [left | right; apply early_covb_sound; exact H].
+  apply andb_true_iff in H. destruct H as [H C]. apply andb_true_iff in H. destruct H as [A B].
+  split; [apply negb_true_false; exact A|]. split; [apply curntb_sound; exact B | apply late_covb_sound; exact C].
 Qed.
 
 Theorem covered_split s line line' a b :
-  TInv s -> covered_at s -> a <> [] -> b <> [] ->
+  TInv s -> covered_at s (a ++ b) -> a <> [] -> b <> [] ->
   exists s1 sa s2,
     process_token (TChars (a ++ b)) line s = Ok SContinue s1 /\
     process_token (TChars a) line s = Ok SContinue sa /\
     process_token (TChars b) line' sa = Ok SContinue s2 /\
     same_core s1 s2 /\ dom_of s1 = dom_of s2 /\ TInv s1 /\ TInv s2.
 Proof.
-  intros I (Fp & (h & V & Nt) & Sh & [Em | [[Em A] | F]]) Na Nb.
+  intros I (Sh & [(Fp & (h & V & Nt) & [Em | [[Em [X A]] | F]]) | (Nf & Ws & evs & app & Wi & Ha)]) Na Nb.
   - apply (text_mode_split_gen s line line' a b h); assumption.
-  - apply body_mode_split; [|exact Na | exact Nb].
+  - apply body_mode_split; [|exact X | exact Na | exact Nb].
     split; [exact I|]. split; [exact Em|]. split; [exact Sh|]. split; [exact Fp|]. split; [exact A|]. exists h. split; assumption.
   - apply foreign_mode_split; [|exact Na | exact Nb].
     split; [exact I|]. split; [exact Sh|]. split; [exact Fp|]. split; [exact F|]. exists h. split; assumption.
+  - apply early_mode_split; [|exact Ws | exact Na | exact Nb].
+    split; [exact I|]. split; [exact Sh|]. split; [exact Nf|]. exists evs, app. split; [exact Wi | exact Ha].
 Qed.
 
 (* ---------- token lists ---------- *)
@@ -140,7 +197,7 @@ Inductive splits_cov : st -> list (token * N) -> list (token * N) -> Prop :=
     splits_cov s ((tk, l) :: r) ((tk, l) :: r')
 | sc_chars s a b l l1 l2 r r' :
     a <> [] -> b <> [] -> splits ((TChars b, l2) :: r) r' ->
-    covered_at s ->
+    covered_at s (a ++ b) ->
     (forall sa, process_token (TChars a) l1 s = Ok SContinue sa -> splits_cov sa ((TChars b, l2) :: r) r') ->
     splits_cov s ((TChars (a ++ b), l) :: r) ((TChars a, l1) :: r').
 
@@ -202,6 +259,9 @@ Proof.
   apply N.eqb_eq in E. subst d. rewrite (IH x b H). reflexivity.
 Qed.
 
+(* the rest of a cut token takes the line number of the next piece *)
+Definition next_line (r' : list (token * N)) (d : N) : N := match r' with (_, l) :: _ => l | [] => d end.
+
 Fixpoint splits_covb (s : st) (l l' : list (token * N)) {struct l'} : bool :=
   match l' with
   | [] => match l with [] => true | _ :: _ => false end
@@ -217,9 +277,9 @@ Fixpoint splits_covb (s : st) (l l' : list (token * N)) {struct l'} : bool :=
         | TChars x, TChars a =>
           match strip_prefix a x with
           | Some b =>
-            negb (is_nil a) && negb (is_nil b) && covered_atb s &&
+            negb (is_nil a) && negb (is_nil b) && covered_atb s x &&
             match process_token (TChars a) l1 s with
-            | Ok SContinue sa => splits_covb sa ((TChars b, ln) :: r) r'
+            | Ok SContinue sa => splits_covb sa ((TChars b, next_line r' ln) :: r) r'
             | _ => false
             end
           | None => false
@@ -248,7 +308,7 @@ Proof.
       destruct (process_token (TChars a) l1 s) as [res sa | n |] eqn:E; try discriminate.
       destruct res; try discriminate.
       pose proof (IH sa _ Hp) as C.
-      apply (sc_chars s a b ln l1 ln r r' Na Nb (splits_cov_splits _ _ _ C) (covered_atb_sound s Hc)).
+      apply (sc_chars s a b ln l1 (next_line r' ln) r r' Na Nb (splits_cov_splits _ _ _ C) (covered_atb_sound s _ Hc)).
       intros sa' E'. rewrite E in E'. injection E' as <-. exact C.
 Qed.
 
@@ -299,4 +359,31 @@ Definition ex_split_pieces2 : list (token * N) :=
     (TChars (nm "v"), 1%N);
     (TEof, 1%N) ].
 Example ex_split_covered2 : splits_cov (init_state ex_opts) ex_split_whole2 ex_split_pieces2.
+Proof. apply splits_covb_sound. vm_compute. reflexivity. Qed.
+
+(* <!DOCTYPE html> LF LF <html> LF SP <head> LF SP </head> LF SP <body>x</body> LF LF </html> LF LF: every run of white space
+   between the tags cut in two (before html, before head, in head, after head, after body, after after body) *)
+Definition ex_ws : str := [10%N; 32%N].
+Definition ex_ws1 : str := [10%N].
+Definition ex_ws2 : str := [32%N].
+Definition ex_tag (k : tagkind) (n : string) : token * N := (TTag k (nm n) false [] false, 1%N).
+Definition ex_split_whole3 : list (token * N) :=
+  [ (TDoctype (Some (nm "html")) None None false, 1%N); (TChars ex_ws, 1%N);
+    ex_tag StartTag "html"; (TChars ex_ws, 2%N);
+    ex_tag StartTag "head"; (TChars ex_ws, 3%N);
+    ex_tag EndTag "head"; (TChars ex_ws, 4%N);
+    ex_tag StartTag "body"; (TChars (nm "x"), 5%N);
+    ex_tag EndTag "body"; (TChars ex_ws, 5%N);
+    ex_tag EndTag "html"; (TChars ex_ws, 6%N);
+    (TEof, 7%N) ].
+Definition ex_split_pieces3 : list (token * N) :=
+  [ (TDoctype (Some (nm "html")) None None false, 1%N); (TChars ex_ws1, 1%N); (TChars ex_ws2, 2%N);
+    ex_tag StartTag "html"; (TChars ex_ws1, 2%N); (TChars ex_ws2, 3%N);
+    ex_tag StartTag "head"; (TChars ex_ws1, 3%N); (TChars ex_ws2, 4%N);
+    ex_tag EndTag "head"; (TChars ex_ws1, 4%N); (TChars ex_ws2, 5%N);
+    ex_tag StartTag "body"; (TChars (nm "x"), 5%N);
+    ex_tag EndTag "body"; (TChars ex_ws1, 5%N); (TChars ex_ws2, 6%N);
+    ex_tag EndTag "html"; (TChars ex_ws1, 6%N); (TChars ex_ws2, 7%N);
+    (TEof, 7%N) ].
+Example ex_split_covered3 : splits_cov (init_state ex_opts) ex_split_whole3 ex_split_pieces3.
 Proof. apply splits_covb_sound. vm_compute. reflexivity. Qed.
